@@ -203,7 +203,9 @@ def check_parse(case, ctx):
         try:
             Reaction.from_string(text, sp2, species_delimiter=sd, reaction_delimiter=rd)
         except KeyError as e:
-            if victim not in str(e):
+            # the message names the species that is missing - outside any echo of the whole reaction string
+            rest = str(e).replace(text, ' ')
+            if victim not in rest:
                 ctx.fail('C14.parse/keyerror-does-not-name', 'missing %r, message %r' % (victim, str(e)[:200]))
         else:
             ctx.fail('C14.parse/unknown-species-accepted', 'text %r missing %r' % (text, victim))
